@@ -117,55 +117,121 @@ def check_kernels(prog, rep):
                     rep.unrec("R1-linear", f.qualname, "other operators")
             except VNUnknown as e:
                 rep.unrec("R1-linear", f.qualname, str(e))
-        # intercept row and design blocks
+        # intercept row and design blocks (name-independent: roles from the kernel call and the from_numpy keyword)
         for name in ("gebv", "gegv", "predict", "var_G"):
             f = K.methods.get(name)
             if f is None:
                 continue
             rep.saw(f)
             construct = f.qualname
-            txt = [dump(s) for s in walk_no_nested(f.node) if isinstance(s, (ast.Assign, ast.AugAssign))]
+            body = body_nodoc(f.node)
             good = True
             if name == "gegv" and K.name != "DenseAdditiveDominanceLinearGenomicModel":
-                if txt == [] and dump(body_nodoc(f.node)[-1]) == "return self.gebv(gtobj=gtobj, **kwargs)":
+                nontrivial = [s_ for s_ in walk_no_nested(f.node) if isinstance(s_, (ast.Assign, ast.AugAssign))]
+                if not nontrivial and "".join(dump(body[-1]).split()) == "returnself.gebv(gtobj=gtobj,**kwargs)":
                     rep.ok("R1-linear", construct, "additive model: genotypic value == breeding value (delegates to gebv)")
                 else:
                     rep.unrec("R1-linear", construct, "gegv of a purely additive model does not delegate to gebv")
                 continue
+            g = [p_ for p_ in f.params() if p_ in ("gtobj", "gmat", "pgmat")]
+            g = g[0] if g else "gtobj"
+            kcall = [c_ for c_ in walk_no_nested(f.node) if isinstance(c_, ast.Call) and isinstance(c_.func, ast.Attribute) and dump(c_.func.value) == "self"
+                     and c_.func.attr.endswith("_numpy")]
             if name in ("gebv", "gegv"):
-                hat = "gebv_hat" if name == "gebv" else "gegv_hat"
-                need = ["nfixed = self.beta.shape[0]", "Xstar[0, 0] = 1", "Xstar[0, 1:] = 1 / nfixed", "location = Xstar @ self.beta", "%s += location" % hat]
-                alloc = [t for t in txt if t.startswith("Xstar = numpy.empty((1, nfixed)") or t.startswith("Xstar = numpy.zeros((1, nfixed)")]
-                miss = [n for n in need if n not in txt]
-                if not alloc:
-                    rep.unrec("R1-linear", construct, "intercept row Xstar not allocated as (1, nfixed)")
-                    good = False
-                elif miss:
-                    if "%s += location" % hat in miss and not any(t.startswith(hat + " = ") and "location" in t for t in txt):
-                        rep.violate("R1-linear", construct, "the intercept term Xstar.beta is not added to the genetic values (dropped intercept)", where(f), "%s += location" % hat, "absent")
-                    elif "Xstar[0, 0] = 1" in miss or "Xstar[0, 1:] = 1 / nfixed" in miss:
-                        got = [t for t in txt if t.startswith("Xstar[")]
-                        rep.violate("R1-linear", construct, "intercept row is written as %s, not [1, 1/q, ..., 1/q] over all q fixed effects" % got, where(f), "Xstar[0,0]=1; Xstar[0,1:]=1/nfixed", str(got))
-                    else:
-                        rep.unrec("R1-linear", construct, "intercept statements %s not found" % miss)
-                    good = False
+                if len(kcall) != 1:
+                    rep.unrec("R1-linear", construct, "expected one call of the numpy kernel")
+                    continue
+                # tail after the type dispatch: value handed to from_numpy(mat=...)
+                outc = [c_ for c_ in walk_no_nested(f.node) if isinstance(c_, ast.Call) and isinstance(c_.func, ast.Attribute) and c_.func.attr == "from_numpy"]
+                kws_o = kwargs_of(outc[0])[0] if len(outc) == 1 else {}
+                H = kws_o.get("mat")
+                if not isinstance(H, ast.Name):
+                    rep.unrec("R1-linear", construct, "from_numpy(mat=<local>) not found")
+                    continue
+                tail = [s_ for s_ in body if not isinstance(s_, (ast.If, ast.Return, ast.Expr))]
+                zarg = [a_ for a_ in kcall[0].args if isinstance(a_, ast.Name)]
+                env = {a_.id: Poly.atom(("var", "<design>")) for a_ in zarg}
+                try:
+                    vn = VN(prog, f, env)
+                    for s_ in tail:
+                        vn.stmt(s_)
+                    got = vn.env.get(H.id)
+                    refs = []
+                    for alloc in ("numpy.empty", "numpy.zeros"):
+                        rv = VN(prog, f, {"DESIGN": Poly.atom(("var", "<design>"))})
+                        src = ("H = self.%s(DESIGN, **kwargs)\nq = self.beta.shape[0]\nX = %s((1, q), dtype=self.beta.dtype)\nX[0, 0] = 1\nX[0, 1:] = 1 / q\nH += X @ self.beta\n"
+                               % (kcall[0].func.attr, alloc))
+                        for s_ in ast.parse(src).body:
+                            rv.stmt(s_)
+                        refs.append(rv.env["H"])
+                except VNUnknown as e:
+                    rep.unrec("R1-linear", construct, "intercept part: %s" % e)
+                    continue
+                if got is None:
+                    rep.unrec("R1-linear", construct, "value handed to from_numpy is not computed in the straight-line tail")
+                    continue
+                if got in refs:
+                    rep.ok("R1-linear", construct, "genetic values = kernel(design) + [1, 1/q, ..., 1/q] . beta (intercept row fully written)")
+                elif "beta" not in repr(got.key()):
+                    rep.violate("R1-linear", construct, "the intercept term Xstar.beta is not added to the genetic values (dropped intercept)", where(f), "+ Xstar @ self.beta", got.show()[:80])
+                elif comparable(got, refs[0]):
+                    rep.violate("R1-linear", construct, "genetic values normalise to %s: the intercept row is not [1, 1/q, ..., 1/q] over all q fixed effects" % got.show()[:140], where(f),
+                                refs[0].show()[:140], got.show()[:140])
+                else:
+                    rep.unrec("R1-linear", construct, "intercept written with other operators: %s" % got.show()[:100])
+                good = None
             if K.name == "DenseAdditiveDominanceLinearGenomicModel" and name in ("gegv", "predict", "var_G"):
-                want_g = ["A = gtobj.mat_asformat('{0,1,2}')", "D = numpy.logical_and(A != 0, A != gtobj.ploidy)", "Z = numpy.concatenate([A, D], axis=1)"]
-                want_n = ["A = gtobj", "D = gtobj == 1"]
-                for w in want_g + want_n:
-                    if w not in txt:
-                        if w.startswith("Z ="):
-                            z = [t for t in txt if t.startswith("Z = ")]
-                            rep.violate("R1-linear", construct, "design blocks are assembled as %s, not [A, D] along the marker axis (the coefficient blocks are [u_a; u_d])" % z,
-                                        where(f), w, str(z))
-                        elif w.startswith("D ="):
-                            d = [t for t in txt if t.startswith("D = ")]
-                            rep.violate("R1-linear", construct, "heterozygosity indicator is %s, not (A != 0) & (A != ploidy) / (A == 1 for a raw diploid array)" % d, where(f), w, str(d))
-                        else:
-                            rep.unrec("R1-linear", construct, "statement `%s` not found" % w)
+                # every type-dispatch branch builds the design handed to the kernel as [A, D]
+                disp = [s_ for s_ in body if isinstance(s_, ast.If) and "isinstance(%s" % g in "".join(dump(s_.test).split())]
+                if len(disp) != 1 or len(kcall) != 1:
+                    rep.unrec("R1-linear", construct, "type dispatch on %s / kernel call not found" % g)
+                    continue
+                zname = [a_.id for a_ in kcall[0].args if isinstance(a_, ast.Name)]
+                branches = []
+                node = disp[0]
+                while isinstance(node, ast.If):
+                    branches.append(("GenotypeMatrix" if "GenotypeMatrix" in dump(node.test) else ("ndarray" if "ndarray" in dump(node.test) else "?"), node.body))
+                    node = node.orelse[0] if len(node.orelse) == 1 and isinstance(node.orelse[0], ast.If) else None
+                REFD = {"GenotypeMatrix": "numpy.concatenate([{g}.mat_asformat('{{0,1,2}}'), numpy.logical_and({g}.mat_asformat('{{0,1,2}}') != 0, {g}.mat_asformat('{{0,1,2}}') != {g}.ploidy)], axis=1)",
+                        "ndarray": "numpy.concatenate([{g}, {g} == 1], axis=1)"}
+                SWAP = {"GenotypeMatrix": "numpy.concatenate([numpy.logical_and({g}.mat_asformat('{{0,1,2}}') != 0, {g}.mat_asformat('{{0,1,2}}') != {g}.ploidy), {g}.mat_asformat('{{0,1,2}}')], axis=1)",
+                        "ndarray": "numpy.concatenate([{g} == 1, {g}], axis=1)"}
+                for kind, bb in branches:
+                    if kind not in REFD:
+                        rep.unrec("R1-linear", construct, "dispatch branch %s" % kind)
                         good = False
-            if good:
-                rep.ok("R1-linear", construct, "intercept row [1, 1/q..] fully written and added" if name in ("gebv", "gegv") else "design [A, D] with D = heterozygosity indicator")
+                        continue
+                    try:
+                        bv = VN(prog, f)
+                        for s_ in bb:
+                            if isinstance(s_, ast.Assign):
+                                bv.stmt(s_)
+                        zs = [bv.env.get(z_) for z_ in zname if z_ in bv.env and z_ not in f.params()]
+                        ref = VN(prog, f).expr(ast.parse(REFD[kind].format(g=g), mode="eval").body)
+                        swp = VN(prog, f).expr(ast.parse(SWAP[kind].format(g=g), mode="eval").body)
+                    except VNUnknown as e:
+                        rep.unrec("R1-linear", construct, "design of the %s branch: %s" % (kind, e))
+                        good = False
+                        continue
+                    if not zs:
+                        rep.unrec("R1-linear", construct, "design handed to the kernel is not built in the %s branch" % kind)
+                        good = False
+                    elif ref in zs:
+                        pass
+                    elif swp in zs:
+                        rep.violate("R1-linear", construct, "design blocks are assembled as [D, A] in the %s branch: the coefficient blocks are [u_a; u_d], so additive effects multiply "
+                                    "heterozygosity indicators" % kind, where(f), "[A, D]", "[D, A]")
+                        good = False
+                    elif any(comparable(z_, ref) for z_ in zs):
+                        z_ = [z for z in zs if comparable(z, ref)][0]
+                        rep.violate("R1-linear", construct, "the design of the %s branch normalises to %s, not [A, D] with D = (A != 0) & (A != ploidy) (A == 1 for a raw diploid array) "
+                                    "along the marker axis" % (kind, z_.show()[:140]), where(f), ref.show()[:140], z_.show()[:140])
+                        good = False
+                    else:
+                        rep.unrec("R1-linear", construct, "design of the %s branch uses other operators: %s" % (kind, zs[0].show()[:100]))
+                        good = False
+                if good:
+                    rep.ok("R1-linear", construct, "design [A, D] with D = heterozygosity indicator in both dispatch branches")
 
 
 def check_coding_labels(prog, rep):
